@@ -78,11 +78,23 @@ def label(off):
     return f"Offset: 0x{off:x}"
 
 
+FIXED_PER_RUN = {"Address", "Origin", "Caller", "CallValue", "CallDataSize", "CodeSize", "GasPrice", "Coinbase", "Timestamp",
+                 "Number", "Difficulty", "GasLimit", "ChainId", "BaseFee", "CallDataLoad", "BlockHash"}
+
+
 def world(salt):
-    """a consistent world: every state-dependent result is a function of (instruction name, operands)
-    -- in particular environment words are constants and calldataload/blockhash functions"""
+    """a world consistent with ONE environment and calldata: environment words are constants and
+    calldataload/blockhash functions of their operand; everything else (storage, memory, balances, gas,
+    call results, keccak of memory) may answer differently at every instruction -- in half of the worlds it
+    does (a store or a call between two reads), in the other half it happens not to"""
     rc = c06.content_oracle(salt)
-    return lambda idx, name, args: rc(name, args)
+    varying = bool(salt & 1)
+
+    def rho(idx, name, args):
+        if name in FIXED_PER_RUN or not varying:
+            return rc(name, args)
+        return rc(name + "@" + str(idx), args)
+    return rho
 
 
 def interesting_word(rng, heads):
@@ -214,6 +226,18 @@ def designed_codes():
         ("hit-blockhash-twice", C.push(4) + h("40") + C.push(4) + h("40") + h("03"), 0),
     ]
     out = [(k, jump_via(body, v)) for k, body, v in hits]
+    # two reads of the same location in one block may differ (a store, a call or simply gas in between):
+    # both outcomes of comparing them are executions, both edges must survive
+    for name, rd in (("sload", h("54")), ("mload", h("51")), ("balance", h("31")), ("extcodesize", h("3b")), ("extcodehash", h("3f")),
+                     ("tail-keccak", C.push(32) + h("20"))):
+        first = C.push(0) + rd if name != "tail-keccak" else C.push(0) + rd
+        between = C.push(1) + C.push(0) + (h("55") if name == "sload" else h("52"))
+        body = first + between + first + h("14")
+        a = body + C.push(len(body) + 2 + 1 + 1, 1) + h("57") + h("00") + h("5b00")
+        out.append((f"reads-differ-{name}", a))
+    for name, rd in (("gas", h("5a")), ("msize", h("59")), ("selfbalance", h("47")), ("returndatasize", h("3d"))):
+        body = rd + rd + h("14")
+        out.append((f"reads-differ-{name}", body + C.push(len(body) + 2 + 1 + 1, 1) + h("57") + h("00") + h("5b00")))
     out += [
         ("miss-sub", C.push(1 << 255, 32) + C.push(((1 << 255) + 5) % W, 32) + b"\x03\x56" + b"\x5b\x00"),
         ("exp-symbolic", h("34") + C.push(2) + h("0a") + h("56") + h("5b00")),
@@ -265,7 +289,8 @@ def check(run):
     # ---- whole-pipeline correspondence + search
     n = 300 if run.tier == "thorough" else 50
     cases = [(k, c) for k, c in designed_codes()]
-    cases += C.systematic_codes()
+    cases += C.systematic_codes() + C.HARD_CODES
+    cases += C.literal_operand_codes(None if run.tier == "thorough" else [0x0B, 0x1A, 0x1B, 0x1C, 0x1D, 0x0A, 0x05, 0x07])
     cases += [("structured", C.gen_code(rng)) for _ in range(n)]
     pos = C.opcode_position_codes()
     step = 1 if run.tier == "thorough" else 9
